@@ -21,7 +21,8 @@ func init() {
 		ID: "C16",
 		Explanation: "Structural necessary conditions of 'the driver's picture of the cluster follows what the cluster reports': R1 the ring's three indexes are only touched under ring.mu; R2 a function that mutates one index mutates all three in one critical section, and the by-address index is written and deleted under the same key derivation; R3 deletion from the by-address index is guarded by the mapped id being the one removed; " +
 			"R4 removal fan-out: Session.removeHost reaches policy, pool and ring; refreshRing removes every host left over from the previous ring; handleNodeDown marks, notifies and removes; R5 peer validation dominates adding a peer; R6 the event buffer is bounded and a topology burst triggers one refresh request outside the per-frame loop; R7 status events are coalesced per address keeping the last one; R8 event consumers do not panic on unexpected frames (=C05.R5 instances)." +
-			" R5 also: isValidPeer answers true only after excluding a missing address, host id, datacenter, rack and token list; R11 ring.hosts and policyConnPool.hostConnPools are indexed with host ids only (values of HostID(), keys of those maps, values of the address index, parameters that receive such values at every call site).",
+			" R5 also: isValidPeer answers true only after excluding a missing address, host id, datacenter, rack and token list; R11 ring.hosts and policyConnPool.hostConnPools are indexed with host ids only (values of HostID(), keys of those maps, values of the address index, parameters that receive such values at every call site)." +
+			" R12 the ring's guarded maps and lists are never returned by reference; R13 refreshRing hands Session.removeHost only hosts taken from the previous view, and the token-aware policy rebuilds its ring from the host list read after the change.",
 		NotDecided: "set equality between the session's hosts and the cluster's report after arbitrary histories; ordering of concurrent refreshes and events; connection establishment to new nodes.",
 		Rules: []*Rule{
 			{ID: "C16.R1", Floor: 20, Doc: "ring.hosts/hostIPToUUID/hostList (and ringDescriber.prev*) only under their mutex", Run: func(p *Program, r *Report) { checkGuardedFields(p, r, ringGuards) }},
